@@ -165,3 +165,81 @@ def flw8_star_expansion_only_for_select_star(ctx):
         ctx.check('FLW-8', 'QueryTask::new|star-expansion-only-for-select-star%s' % ('' if i == 0 else '#%d' % (i + 1)),
                   ok, 'query.select is replaced by the table\'s column list only on the true edge of '
                       'Query::is_select_star()', where(s))
+
+
+# ------------------------------------------------------------------------------------ FLW-26
+def _expr(F, du, operand, depth=0):
+    """Structural rendering of the value of an operand through single-definition temporaries: named
+    user variables (debug info) and parameters are leaves, Add/Sub/min/saturating ops are nodes."""
+    from mirlib.dataflow import operand_place, is_const
+    op = operand.strip()
+    if is_const(op):
+        return op
+    l = base_local(op)
+    if l is None or depth > 6:
+        return op
+    names = [nm for (nm, pl) in F.debug_all if pl.strip() == '_%d' % l]
+    if names:
+        return 'var:' + names[0]
+    d = du.single_def(l)
+    if d is None:
+        return '_%d' % l
+    bid, kind, obj = d
+    if kind == 'stmt':
+        rhs = obj.rhs.strip()
+        m = re.match(r'^(Add|Sub|Mul)(WithOverflow|Unchecked)?\((.*), (.*)\)$', rhs)
+        if m:
+            x, y = _expr(F, du, m.group(3), depth + 1), _expr(F, du, m.group(4), depth + 1)
+            if m.group(1) in ('Add', 'Mul'):
+                x, y = sorted((x, y))       # commutative
+            return '%s(%s, %s)' % (m.group(1), x, y)
+        m = re.match(r'^(copy|move) (.*)$', rhs)
+        if m:
+            return _expr(F, du, rhs, depth + 1)
+        m = re.match(r'^\(?(_\d+)\.0: usize\)?$', operand_place(rhs))
+        if m:
+            return _expr(F, du, m.group(1), depth + 1)
+        return rhs if len(rhs) < 40 else '_%d' % l
+    f = norm_callee(obj.func or '').split('::')[-1]
+    return '%s(%s)' % (f, ', '.join(_expr(F, du, a, depth + 1) for a in obj.args))
+
+
+def flw26_row_and_column_view_one_window(ctx):
+    """`QueryOutput` carries the result twice: `rows` and `columns`.  Both are cut out of the merged
+    result by LIMIT / OFFSET; the row loop runs over `offset..end` and each column is
+    `slice_box(offset, end)`.  The two views describe the same cells only if both use the same,
+    clamped bounds - `slice_box` of a constant column cannot clamp (a constant has no length)."""
+    ctx.rule('FLW-26', 'the row view and the column view of a result are cut with the same window: the range of '
+                       'the row loop and the arguments of slice_box in convert_to_output_format are the same '
+                       'expressions, and the window is clamped by the length of the result', floor=2)
+    P = ctx.P
+    F = P.one('QueryTask::convert_to_output_format')
+    F.parse()
+    du = DefUse(F)
+    slices = [(b, t) for (b, t) in F.calls() if not b.cleanup and norm_callee(t.func or '').endswith('::slice_box')]
+    ranges = []
+    for bid, blk in F.blocks.items():
+        if blk.cleanup:
+            continue
+        for s in blk.stmts:
+            m = re.match(r'^std::ops::Range::<usize> \{ start: (.*), end: (.*) \}$', s.rhs.strip()) if s.kind == 'assign' else None
+            if m:
+                ranges.append((s, m.group(1), m.group(2)))
+    ctx.require(slices and ranges, 'FLW-26: convert_to_output_format has no slice_box call / no row range')
+    rs = [(_expr(F, du, a), _expr(F, du, b)) for (_s, a, b) in ranges]
+    for k, (blk, t) in enumerate(slices):
+        if len(t.args) < 3:
+            continue
+        win = (_expr(F, du, t.args[1]), _expr(F, du, t.args[2]))
+        same = win in rs
+        ctx.check('FLW-26', 'convert_to_output_format|slice_box%s|same-window-as-rows' % ('' if k == 0 else '#%d' % (k + 1)), same,
+                  'columns are cut with (%s, %s); the row loop runs over %s' % (win[0], win[1], rs), where(t))
+    # the window is clamped: its end derives from the length of the result
+    for (s, a, b) in ranges:
+        l = base_local(b)
+        org = du.origins(l) if l is not None else {'calls': []}
+        lens = [c for (_b, c) in org['calls'] if norm_callee(c.func or '').endswith('BatchResult::len') or
+                re.search(r'BatchResult<[^>]*>::len$|BatchResult::<[^>]*>::len$', norm_callee(c.func or ''))]
+        mins = [c for (_b, c) in org['calls'] if norm_callee(c.func or '').endswith('cmp::min')]
+        ctx.check('FLW-26', 'convert_to_output_format|window-clamped-by-result-length', bool(lens) and bool(mins),
+                  'the end of the window derives from min(.., result length): %s' % _expr(F, du, b), where(s))
